@@ -600,7 +600,14 @@ def _b_new(ex, p, m, a, func, fr):
 def _bm_reserve(ex, p, m, a, func, fr):
     op = m.group(1)
     if op == 'reserve':
-        return one(U())
+        # remember the guarantee: at least `additional` bytes of spare capacity at the current length (used by chunk_mut)
+        try:
+            tr0 = target_ref(ex, p, a[0])
+            b0 = ex.load(p.st, tr0.base, tr0.proj)
+            key, ent = (tr0.base, tr0.proj), (a[1][0], b0.off + b0.len)
+            return one(U(), apply=lambda q: q.ghost.setdefault('reserved', {}).__setitem__(key, ent))
+        except Exception:
+            return one(U())
     r = a[0]
     tr = target_ref(ex, p, r)
     b = ex.load(p.st, tr.base, tr.proj)
@@ -662,8 +669,15 @@ def _chunk_mut(ex, p, m, a, func, fr):
     r = a[0]
     tr = target_ref(ex, p, r)
     b = ex.load(p.st, tr.base, tr.proj)
-    # spare capacity: a write-through window that starts at the end of the buffer
-    return one(SRef(tr, b.off + b.len, bvv(1 << 40, 64)))
+    # spare capacity: a write-through window that starts at the end of the buffer.  Its length is what BytesMut guarantees:
+    # at least the amount of the last reserve() made at this very length, otherwise only "not empty" (chunk_mut grows a full buffer)
+    spare = fresh('spare', BV64)
+    end = b.off + b.len
+    res = p.ghost.get('reserved', {}).get((tr.base, tr.proj))
+    lo = bv64(1)
+    if res is not None and z3.is_true(z3.simplify(res[1] == end)):
+        lo = z3.If(z3.UGE(res[0], 1), res[0], bv64(1))
+    return one(SRef(tr, end, spare), assume=z3.And(z3.UGE(spare, lo), z3.ULE(spare, bvv(1 << 40, 64))))
 
 
 @model(r'^(?:\w+::)*(?:BytesMut|Bytes)::(freeze|into|clone)$|^<(?:\w+::)*(?:BytesMut|Bytes) as (?:std::clone::)?Clone>::clone$')
